@@ -50,8 +50,8 @@ Print Assumptions C02_dynamic_attr_always_escaped.
     conditional attributes, brace-less blocks): the generated body is a [denotes] run for [segs_list body], in which
     an expression occurs only as [SDyn] / [SDynQ] — html-escaped by [eval_segs] — or as the Go statement of a block *)
 Theorem C02_fragment_values_only_escaped : forall o body,
-  Forall dyn_node body ->
-  exists m' code, denotes 2 false m' code (segs_list body) /\ item_err (Node (KGoht o) body) = None /\
+  Forall dyn_node body -> kids_ok body ->
+  exists (m' : bool) code, denotes 2 false m' code (segs_list false body) /\ item_err (Node (KGoht o) body) = None /\
     item_text (Node (KGoht o) body) =
       lit "func " ++ t_lit o ++ c_gohtEntry ++ code ++ (if m' then close_text (Lo 2) else []) ++ c_gohtExit.
 Proof. exact dyn_template_code. Qed.
